@@ -4,12 +4,13 @@
 #include "h3Index.h"
 #include "faceijk.h"
 #include "baseCells.h"
+#include <stdlib.h>
 #if defined(GLUE)
 uint64_t in_h; int in_pent, in_err; int s_face[6];
 static int nadj, nconv, nverts;
 static H3Index CHILD;
 int H3_EXPORT(isPentagon)(H3Index h) { __CPROVER_assert(h == in_h || h == CHILD, "isPentagon on the cell (or its centre child)"); return in_pent; }
-H3Error _h3ToFaceIjk(H3Index h, FaceIJK *f) { nconv++; f->face = 0; f->coord.i = f->coord.j = f->coord.k = 0; return (H3Error)in_err; }
+H3Error _h3ToFaceIjk(H3Index h, FaceIJK *f) { nconv++; f->face = vp_next_int() & 15; f->coord.i = vp_next_int() & 0xffff; f->coord.j = vp_next_int() & 0xffff; f->coord.k = 0; return (H3Error)in_err; }
 void _faceIjkToVerts(FaceIJK *f, int *res, FaceIJK *v) { __CPROVER_assert(!in_pent, "hexagon vertex function only for hexagons"); nverts++; }
 void _faceIjkPentToVerts(FaceIJK *f, int *res, FaceIJK *v) { __CPROVER_assert(in_pent, "pentagon vertex function only for pentagons"); nverts++; }
 Overage _adjustOverageClassII(FaceIJK *f, int res, int pentLeading4, int substrate) { __CPROVER_assert(!in_pent && substrate == 1 && pentLeading4 == 0 && nadj < 6, "hexagon: one substrate overage adjustment per vertex"); f->face = s_face[nadj++]; return NO_OVERAGE; }
@@ -24,12 +25,15 @@ void harness(void) {
     __CPROVER_assume(!(delegated && res == 15));
     CHILD = in_h;
     if (delegated) { CHILD = in_h; H3_SET_RESOLUTION(CHILD, res + 1); H3_SET_INDEX_DIGIT(CHILD, res + 1, 0); }
+    // output buffer of exactly maxFaceCount ints on the heap: any access beyond it is a bounds violation
+    int mx = in_pent ? 5 : 2, nv = in_pent ? 5 : 6;
+    int *buf = in_pent ? malloc(5 * sizeof(int)) : malloc(2 * sizeof(int));
+    __CPROVER_assume(buf != 0);
+    for (int i = 0; i < 5; i++) if (i < mx) buf[i] = -7;
+    H3Error e = H3_EXPORT(getIcosahedronFaces)(in_h, buf);
     int out[7];
     for (int i = 0; i < 7; i++) out[i] = -7;
-    H3Error e = H3_EXPORT(getIcosahedronFaces)(in_h, out + 1);
-    int mx = in_pent ? 5 : 2, nv = in_pent ? 5 : 6;
-    __CPROVER_assert(out[0] == -7, "no write before the buffer");
-    for (int i = 0; i < 6; i++) if (i >= mx) __CPROVER_assert(out[1 + i] == -7, "no write beyond maxFaceCount slots");
+    for (int i = 0; i < 5; i++) if (i < mx) out[1 + i] = buf[i];
     if (in_err) { __CPROVER_assert(e == (H3Error)in_err, "conversion error is passed through"); return; }
     // reference: distinct faces in first-seen order
     int ref[6], nref = 0, overflow = 0;
